@@ -20,85 +20,157 @@ func vmSize() uint64 {
 	return s
 }
 
-// VerifDiskLRUHistory: histories of Create/Open/MarkComplete/Delete/Ban/Unban
-// over two or three keys with symbolic sizes and capacity; after every step
-// result class, reserved size, LRU order, listings and per-blob flags equal the
-// model's.
-func VerifDiskLRUHistory() {
-	capacity := verif.Uint64("capacity")
-	vmAssumeNoWrap(capacity)
-	h := vmNew(capacity, verif.Bound("keys", 2, 3), 0)
-	h.sizeFn = vmSize
-	steps := verif.Bound("steps", 4, 5)
-	ops := []int{voCreate, voOpen, voMarkComplete, voDelete, voBan, voUnban}
-	for i := 0; i < steps; i++ {
-		h.step(ops, 1)
+// vmBuildState brings the store, through its own API, into one of the
+// canonical states over the first nkeys keys: every key absent, incomplete,
+// incomplete and banned, complete, or complete and banned; sizes symbolic (their
+// sum within capacity, so that building the state evicts nothing); every LRU
+// order of the complete unbanned keys. Every reachable abstract state of the
+// model over nkeys keys (without metadata) is produced by some choice.
+func vmBuildState(h *vmH, nkeys int) {
+	st := make([]int, nkeys)
+	var unbannedComplete []int
+	for k := 0; k < nkeys; k++ {
+		st[k] = verif.Choice("state", 5) // 0 absent, 1 incomplete, 2 incomplete+banned, 3 complete, 4 complete+banned
+		if st[k] == 0 {
+			continue
+		}
+		h.do(voCreate, k, storelib.BlobScopeAny)
+		verif.Assume(h.m.blobs[k].present)
+		if st[k] == 2 || st[k] == 4 {
+			h.do(voBan, k, storelib.BlobScopeAny)
+		}
+		if st[k] == 4 {
+			h.do(voMarkComplete, k, storelib.BlobScopeAny)
+		}
+		if st[k] == 3 {
+			unbannedComplete = append(unbannedComplete, k)
+		}
 	}
-	verif.Cover("model-evicted-something", h.m.evicted > 0)
-	verif.Cover("two-queued", len(h.m.lru) >= 2)
+	for len(unbannedComplete) > 0 {
+		i := 0
+		if len(unbannedComplete) > 1 {
+			i = verif.Choice("lru-next", len(unbannedComplete))
+		}
+		h.do(voMarkComplete, unbannedComplete[i], storelib.BlobScopeAny)
+		unbannedComplete = append(append([]int{}, unbannedComplete[:i]...), unbannedComplete[i+1:]...)
+	}
+	verif.Assume(h.m.evicted == 0)
+	h.m.evicted = 0
+	h.check()
 }
 
-// VerifDiskEvictionOrder: three complete blobs, a symbolic sequence of
-// touches (Open), bans and unbans, then a Create that forces eviction: the
-// store evicts exactly the blobs the model evicts, in model order, never a
-// banned or incomplete one.
+var vmStructOps = []int{voCreate, voMarkComplete, voOpen, voStat, voHas, voDelete, voBan, voUnban}
+
+// VerifDiskStepFromState: from every canonical state, one operation (two in
+// the thorough tier) on key 0 under every scope; result class, reserved size
+// (= sum of live sizes, within capacity), LRU order, listings per scope and
+// per-blob flags equal the model's afterwards. Creation on an absent key with a
+// symbolic size evicts exactly the model's victims in LRU order.
+func VerifDiskStepFromState() {
+	capacity := verif.Uint64("capacity")
+	vmAssumeNoWrap(capacity)
+	nkeys := verif.Bound("keys", 2, 3)
+	h := vmNew(capacity, nkeys, 0)
+	h.sizeFn = vmSize
+	vmBuildState(h, nkeys)
+	steps := verif.Bound("steps", 1, 2)
+	for i := 0; i < steps; i++ {
+		h.nkeys = 1 // operation on key 0 (states are closed under renaming keys)
+		op := vmStructOps[verif.Choice("op", len(vmStructOps))]
+		scope := storelib.BlobScopeAny
+		if op != voCreate && op != voMarkComplete {
+			scope = vmScopeOf(verif.Choice("scope", 3))
+		}
+		h.nkeys = nkeys
+		h.do(op, 0, scope)
+		h.check()
+	}
+	verif.Cover("model-evicted-something", h.m.evicted > 0)
+	verif.Cover("out-of-scope-seen", h.sawOutOfScope)
+}
+
+// VerifDiskEvictionOrder: two complete blobs and one touch/ban/unban (more in
+// the thorough tier), then a Create of a third key with symbolic size: the
+// store evicts exactly the blobs the model evicts, least recently used first,
+// never a banned one.
 func VerifDiskEvictionOrder() {
 	capacity := verif.Uint64("capacity")
 	vmAssumeNoWrap(capacity)
 	h := vmNew(capacity, 3, verif.Choice("shard", 2))
 	h.sizeFn = vmSize
-	// keys 0,1 complete; key 2 created and optionally complete
 	h.do(voCreate, 0, storelib.BlobScopeAny)
 	h.do(voMarkComplete, 0, storelib.BlobScopeAny)
 	h.do(voCreate, 1, storelib.BlobScopeAny)
 	h.do(voMarkComplete, 1, storelib.BlobScopeAny)
-	h.check()
-	steps := verif.Bound("steps", 2, 3)
-	ops := []int{voOpen, voBan, voUnban, voMarkComplete}
+	verif.Assume(len(h.m.lru) == 2)
+	h.m.evicted = 0
+	steps := verif.Bound("steps", 1, 3)
+	ops := []int{voOpen, voBan, voUnban}
+	h.nkeys = 2
 	for i := 0; i < steps; i++ {
 		h.step(ops, 1)
 	}
+	h.nkeys = 3
 	h.do(voCreate, 2, storelib.BlobScopeAny)
 	h.check()
 	verif.Cover("evicted-one", h.m.evicted == 1)
 	verif.Cover("evicted-two", h.m.evicted == 2)
-	verif.Cover("no-space-with-banned", h.m.evicted == 0 && !h.m.blobs[2].present)
+	verif.Cover("no-space", !h.m.blobs[2].present)
 }
 
-// VerifDiskScopes: one incomplete and one complete blob; every scoped
-// operation under every scope hides exactly the out-of-scope blob.
-func VerifDiskScopes() {
+// VerifDiskLRUHistory: short free histories (longer in the thorough tier) of
+// Create/Open/MarkComplete/Delete/Ban/Unban over two keys from the empty store.
+func VerifDiskLRUHistory() {
 	capacity := verif.Uint64("capacity")
 	vmAssumeNoWrap(capacity)
-	h := vmNew(capacity, 3, 0)
+	h := vmNew(capacity, 2, 0)
 	h.sizeFn = vmSize
-	h.do(voCreate, 0, storelib.BlobScopeAny)
-	h.do(voCreate, 1, storelib.BlobScopeAny)
-	h.do(voMarkComplete, 1, storelib.BlobScopeAny)
-	verif.Assume(h.m.blobs[0].present && h.m.blobs[1].present)
-	h.check()
-	ops := []int{voOpen, voStat, voHas, voDelete, voBan, voUnban, voSetMd, voGetMd, voDelMd, voListMd}
-	steps := verif.Bound("steps", 1, 2)
-	for i := 0; i < steps; i++ {
-		h.step(ops, 3)
-	}
-	h.checkAllMd()
-}
-
-// VerifDiskMetadata: metadata histories on one key across completion:
-// reads return the last value set, deletion removes, non-movable metadata
-// disappears on completion while movable metadata survives it.
-func VerifDiskMetadata() {
-	h := vmNew(100, 1, verif.Choice("shard", 2))
-	h.sizeFn = vmSize
-	h.do(voCreate, 0, storelib.BlobScopeAny)
-	verif.Assume(h.m.blobs[0].present)
-	ops := []int{voSetMd, voDelMd, voMarkComplete, voListMd}
-	steps := verif.Bound("steps", 3, 5)
+	steps := verif.Bound("steps", 2, 4)
+	ops := []int{voCreate, voOpen, voMarkComplete, voDelete, voBan, voUnban}
 	for i := 0; i < steps; i++ {
 		h.step(ops, 1)
+	}
+}
+
+var vmMdOps = []int{voSetMd, voGetMd, voDelMd, voListMd, voMarkComplete, voDelete}
+
+// VerifDiskMetadataStep: one key in every state with every combination of the
+// movable and the non-movable metadata kind set, then metadata operations
+// under every scope and completion: reads return the last value set, deletion
+// removes, non-movable metadata disappears on completion, movable survives.
+func VerifDiskMetadataStep() {
+	h := vmNew(100, 1, verif.Choice("shard", 2))
+	h.sizeFn = func() uint64 { return 10 }
+	vmBuildState(h, 1)
+	verif.Assume(h.m.blobs[0].present)
+	mdState := verif.Choice("mdstate", 4)
+	for kind := 0; kind < 2; kind++ {
+		if mdState&(1<<kind) != 0 {
+			val := verif.Byte("premd")
+			err := h.s.SetMetadata(vmKeys[0], vmNewMd(kind, val))
+			verif.Assert("pre-setmd-ok", err == nil)
+			h.m.blobs[0].md[kind] = vmMdVal{true, val}
+		}
+	}
+	steps := verif.Bound("steps", 1, 3)
+	for i := 0; i < steps; i++ {
+		h.step(vmMdOps, 3)
 		h.checkAllMd()
 	}
 	verif.Cover("immovable-dropped-by-completion", h.m.droppedImmovable)
 	verif.Cover("movable-survives-completion", h.m.blobs[0].complete && h.m.blobs[0].md[0].set)
+}
+
+// VerifFindingCreateSizeWrap: two Creates with full-range symbolic sizes under
+// a full-range symbolic capacity. See FINDINGS.md: the admission test
+// s.size+space <= s.capacity wraps around, so a huge size is admitted and the
+// reserved size ends up below the sum of live sizes.
+func VerifFindingCreateSizeWrap() {
+	capacity := verif.Uint64("capacity")
+	h := vmNew(capacity, 2, 0)
+	h.sizeFn = func() uint64 { return verif.Uint64("size") }
+	h.do(voCreate, 0, storelib.BlobScopeAny)
+	h.check()
+	h.do(voCreate, 1, storelib.BlobScopeAny)
+	h.check()
 }
